@@ -154,6 +154,8 @@ def signature(case, impl_obs, model_obs):
         return "pool:" + last
     if any(l.startswith("777") for l in impl_obs):
         return "pool:deadlock"
+    if any(l.startswith("888") for l in impl_obs):
+        return "pool:use-after-destroy"
     if any(l.startswith("666") for l in impl_obs):
         return "pool:yield-under-lock"
     forgotten, other = 0, 0
@@ -172,4 +174,4 @@ def signature(case, impl_obs, model_obs):
     return "pool:oracle"
 
 
-PARTS = [{"name": "ctl_pool", "harness": "ctl_pool.cpp", "gen": gen, "no_shrink": False, "timeout_case": 10}]
+PARTS = [{"name": "ctl_pool", "harness": "ctl_pool.cpp", "gen": gen, "no_shrink": False, "timeout_case": 1}]
